@@ -9,7 +9,9 @@ of `read_ET_data` (reading.py) around the per-restart readers:
     `read_ET_checkpoints`, abstract here) for every restart that has something
     to do;
   * the final flattening of `datar` into the returned dictionary
-    (`for iit in old_it: for restart in datar.keys(): if iit in datar[restart]['it']: ...`).
+    (`for iit in old_it: for restart in datar.keys(): if iit in datar[restart]['it']: ...`);
+    as of /repo e8cb585 the result has the UNION of the columns of all restarts and a
+    restart that lacks a column contributes `None` for its iterations.
 
 Generalises `pickRestart` / `itToDo` / `flatten` of Model/Chunks.lean (which
 only follow the (iteration, restart) pairs) to the actual table cells, so that
@@ -76,25 +78,41 @@ def argminAbs (arr : List Nat) (iit : Nat) : Option Nat :=
   | some m => some (d.idxOf m)
 
 /-- ```
-for key in datar[restart].keys():
-    data[key] += [datar[restart][key][it_index]]
-``` (`none`: KeyError / IndexError) -/
-def appendCell {β : Type} (idx : Nat) (d : Dict String (List β)) (kc : String × List β) :
-    Option (Dict String (List β)) :=
-  match d.get? kc.1, kc.2[idx]? with
-  | some l, some v => some (d.set kc.1 (l ++ [v]))
-  | _, _ => none
+data = {}
+for restart in datar.keys():
+    for key in datar[restart].keys():
+        data.setdefault(key, [])
+``` : every column found in any restart, in first-seen order -/
+def addKey (ks : List String) (k : String) : List String := if ks.contains k then ks else ks ++ [k]
 
-def appendRow {β : Type} (data : Dict String (List β)) (T : Table β) (idx : Nat) : Option (Dict String (List β)) :=
-  T.cols.foldlM (appendCell idx) data
+def unionKeys {β : Type} (datar : List (Nat × Table β)) : List String :=
+  datar.foldl (fun ks rT => (rT.2.cols.map Prod.fst).foldl addKey ks) []
+
+/-- ```
+for key in data.keys():
+    if key in datar[restart].keys(): data[key] += [datar[restart][key][it_index]]
+    else:                            data[key] += [None]
+``` (`none`: IndexError).  A cell of the result is `some value` or `none` = Python's `None`. -/
+def appendCell {β : Type} (T : Table β) (idx : Nat) (kl : String × List (Option β)) :
+    Option (String × List (Option β)) :=
+  match T.cols.get? kl.1 with
+  | some col =>
+    match col[idx]? with
+    | some v => some (kl.1, kl.2 ++ [some v])
+    | none => none
+  | none => some (kl.1, kl.2 ++ [none])
+
+def appendRow {β : Type} (data : Dict String (List (Option β))) (T : Table β) (idx : Nat) :
+    Option (Dict String (List (Option β))) :=
+  mapOpt (appendCell T idx) data
 
 /-- ```
 if iit in datar[restart]['it']:
     it_index = np.argmin(abs(datar[restart]['it'] - iit))
-    for key in ...: data[key] += [...]
-``` (the `'it'` column is appended like every other column) -/
-def rowStep {β : Type} (iit : Nat) (acc : List Nat × Dict String (List β)) (rT : Nat × Table β) :
-    Option (List Nat × Dict String (List β)) :=
+    for key in data.keys(): ...
+``` (every restart has the `'it'` column: it is appended like the others, never `None`) -/
+def rowStep {β : Type} (iit : Nat) (acc : List Nat × Dict String (List (Option β))) (rT : Nat × Table β) :
+    Option (List Nat × Dict String (List (Option β))) :=
   if iit ∈ rT.2.its then
     match argminAbs rT.2.its iit with
     | none => none
@@ -104,18 +122,16 @@ def rowStep {β : Type} (iit : Nat) (acc : List Nat × Dict String (List β)) (r
       | _, _ => none
   else some acc
 
-/-- the flattening of `datar`; the result is `(data['it'], other columns)` -/
+/-- the flattening of `datar`; the result is `(data['it'], other columns)`.  With an
+empty `datar` the code returns the empty dictionary. -/
 def flattenTables {β : Type} (datar : List (Nat × Table β)) (oldIt : List Nat) :
-    Option (List Nat × Dict String (List β)) :=
-  match datar with
-  | [] => none                                    -- list(datar.keys())[0]: IndexError
-  | (_, T0) :: _ =>
-    oldIt.foldlM (fun acc iit => datar.foldlM (rowStep iit) acc) ([], T0.cols.map fun kc => (kc.1, []))
+    Option (List Nat × Dict String (List (Option β))) :=
+  oldIt.foldlM (fun acc iit => datar.foldlM (rowStep iit) acc) ([], (unionKeys datar).map fun k => (k, []))
 
 /-- `read_ET_data(it=its, restart=..., usecheckpoints=...)` around an abstract
 per-restart reader `reader restart its_to_do` (`restart = none` is `-1`) -/
 def readETData {β : Type} (usechk : Bool) (cats : List Cat) (restart : Option Nat) (its : List Nat)
-    (reader : Nat → List Nat → Option (Table β)) : Option (List Nat × Dict String (List β)) :=
+    (reader : Nat → List Nat → Option (Table β)) : Option (List Nat × Dict String (List (Option β))) :=
   let it := sortedSet its
   let todo : Option (List (Nat × List Nat)) :=
     match restart with
